@@ -495,4 +495,50 @@ theorem VPos.snoc {V : List BVal} (h : VPos V) {v : BVal} (hv : ∀ r, v = .port
 /-- every portion constant of the resource table has a positive denominator -/
 def TablePos (rs : List Resource) : Prop := ∀ r, Resource.const (.portion r) ∈ rs → 0 < r.den
 
+/-! ### equal rationals print the same -/
+
+theorem reduce_eq {a b a' b' : Nat} (h : a * b' = a' * b) (hb : 0 < b) (hb' : 0 < b') :
+    a / Nat.gcd a b = a' / Nat.gcd a' b' ∧ b / Nat.gcd a b = b' / Nat.gcd a' b' := by
+  have hg : 0 < Nat.gcd a b := Nat.gcd_pos_of_pos_right a hb
+  have hg' : 0 < Nat.gcd a' b' := Nat.gcd_pos_of_pos_right a' hb'
+  have hcp := Nat.coprime_div_gcd_div_gcd hg
+  have hcp' := Nat.coprime_div_gcd_div_gcd hg'
+  generalize hA1 : a / Nat.gcd a b = a1 at hcp ⊢
+  generalize hB1 : b / Nat.gcd a b = b1 at hcp ⊢
+  generalize hA1' : a' / Nat.gcd a' b' = a1' at hcp' ⊢
+  generalize hB1' : b' / Nat.gcd a' b' = b1' at hcp' ⊢
+  have ea : a = a1 * Nat.gcd a b := by rw [← hA1]; exact (Nat.div_mul_cancel (Nat.gcd_dvd_left a b)).symm
+  have eb : b = b1 * Nat.gcd a b := by rw [← hB1]; exact (Nat.div_mul_cancel (Nat.gcd_dvd_right a b)).symm
+  have ea' : a' = a1' * Nat.gcd a' b' := by rw [← hA1']; exact (Nat.div_mul_cancel (Nat.gcd_dvd_left a' b')).symm
+  have eb' : b' = b1' * Nat.gcd a' b' := by rw [← hB1']; exact (Nat.div_mul_cancel (Nat.gcd_dvd_right a' b')).symm
+  generalize Nat.gcd a b = g at hg ea eb
+  generalize Nat.gcd a' b' = g' at hg' ea' eb'
+  subst ea eb ea' eb'
+  have hb1 : 0 < b1 := Nat.pos_of_mul_pos_right hb
+  have hb1' : 0 < b1' := Nat.pos_of_mul_pos_right hb'
+  have h2 : a1 * b1' = a1' * b1 := by
+    have : (g * g') * (a1 * b1') = (g * g') * (a1' * b1) := by
+      calc (g * g') * (a1 * b1') = a1 * g * (b1' * g') := by ring1
+        _ = a1' * g' * (b1 * g) := h
+        _ = (g * g') * (a1' * b1) := by ring1
+    exact Nat.eq_of_mul_eq_mul_left (Nat.mul_pos hg hg') this
+  have d1 : a1 ∣ a1' := hcp.dvd_of_dvd_mul_right ⟨b1', by rw [← h2]⟩
+  have d2 : a1' ∣ a1 := hcp'.dvd_of_dvd_mul_right ⟨b1, by rw [h2]⟩
+  have e1 : a1 = a1' := Nat.dvd_antisymm d1 d2
+  subst e1
+  refine ⟨rfl, ?_⟩
+  rcases Nat.eq_zero_or_pos a1 with h0 | hpos
+  · subst h0
+    have : b1 = 1 := by simpa using hcp
+    have : b1' = 1 := by simpa using hcp'
+    omega
+  · exact (Nat.eq_of_mul_eq_mul_left hpos h2).symm
+
+theorem ratToString_ratRel {a b : Rat'} (h : RatRel a b) : ratToString a = ratToString b := by
+  obtain ⟨he, ha, hb⟩ := h
+  obtain ⟨h1, h2⟩ := reduce_eq he ha hb
+  have hg : Nat.gcd a.num a.den ≠ 0 := Nat.ne_of_gt (Nat.gcd_pos_of_pos_right _ ha)
+  have hg' : Nat.gcd b.num b.den ≠ 0 := Nat.ne_of_gt (Nat.gcd_pos_of_pos_right _ hb)
+  simp only [ratToString, hg, hg', if_false, h1, h2]
+
 end Num
